@@ -24,7 +24,7 @@ def run(ctx):
     r172(ctx, api)
     r173(ctx, api)
     from . import callsigs as _cs
-    _cs.general_rules(ctx, 'R17', ['api.ParquetFile', 'api._pre_allocate'])
+    _cs.general_rules(ctx, 'R17', ['api.ParquetFile', 'api._pre_allocate', 'core.read_row_group_arrays', 'core.read_row_group', 'dataframe'])
 
 
 def _callers(ctx, name):
@@ -134,6 +134,8 @@ def r172(ctx, api):
 
 def r173(ctx, api):
     r175(ctx)
+    from . import c20 as _c20
+    _c20.r202(ctx)
     from . import c14, meta_rules, c01
     c01.r11(ctx)
     c14.r144(ctx, api, ctx.repo['writer'])
